@@ -229,10 +229,14 @@ fn p_sc<C: Ciphersuite>(s: &str) -> Option<SigningCommitments<C>> {
 macro_rules! load {
     ($a:expr, $key:expr, $json:expr, $t:ty) => {{
         let bytes = unhx($a.get($key)?)?;
-        let r: Result<$t, ()> = if $json {
-            serde_json::from_slice::<$t>(&bytes).map_err(|_| ())
-        } else {
-            <$t>::deserialize(&bytes).map_err(|_| ())
+        let r: Result<$t, ()> = match $json {
+            // the stored text handed over as a slice, through a reader (a file), or as a parsed document
+            "json" => serde_json::from_slice::<$t>(&bytes).map_err(|_| ()),
+            "json_reader" => serde_json::from_reader::<_, $t>(std::io::Cursor::new(&bytes)).map_err(|_| ()),
+            "json_value" => serde_json::from_slice::<serde_json::Value>(&bytes)
+                .map_err(|_| ())
+                .and_then(|v| serde_json::from_value::<$t>(v).map_err(|_| ())),
+            _ => <$t>::deserialize(&bytes).map_err(|_| ()),
         };
         match r {
             Ok(v) => v,
@@ -247,7 +251,7 @@ fn resume<C: Ciphersuite>(a: &A) -> Option<String> {
     use frost_core::keys::dkg;
     use frost_core::keys::{refresh, repairable};
     use std::collections::BTreeMap;
-    let json = a.get("fmt")? == "json";
+    let json = a.get("fmt")?;
     let step = a.get("step")?;
     let r1 = || -> Option<BTreeMap<Identifier<C>, round1::Package<C>>> {
         Some(p_recs(p_r1::<C>, a.get("r1")?)?.into_iter().collect())
